@@ -707,10 +707,15 @@ class RecordContextMatcher:
                         raise InvalidOperation(
                             "Generator variable '{}' overwrites existing variable!".format(gen.target.id)
                         )
-                values = recursive_generator(node.generators[::-1])
-                for val in values:
-                    result = self.eval(node.elt)
-                    yield result
+                try:
+                    values = recursive_generator(node.generators[::-1])
+                    for val in values:
+                        result = self.eval(node.elt)
+                        yield result
+                finally:
+                    # the loop variables go out of scope with the generator expression
+                    for gen in node.generators:
+                        self.data.pop(gen.target.id, None)
 
             return generator_expr()
 
